@@ -25,11 +25,12 @@ import (
 var vsymErrS3b = errors.New("vsym: injected S3 failure")
 
 type vsymMonS3 struct {
-	objs   map[string][]byte
-	writes []string // every mutating call, in order
-	reads  []string
-	failUp func(key string) bool
-	mu     sync.Mutex // native runs only: segment and index are uploaded from different goroutines
+	objs    map[string][]byte
+	writes  []string // every mutating call, in order
+	reads   []string
+	failUp  func(key string) bool
+	failErr error      // the error an injected failure returns (default: a plain error)
+	mu      sync.Mutex // native runs only: segment and index are uploaded from different goroutines
 }
 
 func (s *vsymMonS3) lock() func() {
@@ -45,6 +46,9 @@ func newVsymMonS3() *vsymMonS3 { return &vsymMonS3{objs: map[string][]byte{}} }
 func (s *vsymMonS3) put(key string, body []byte) error {
 	defer s.lock()()
 	if s.failUp != nil && s.failUp(key) {
+		if s.failErr != nil {
+			return s.failErr
+		}
 		return vsymErrS3b
 	}
 	s.writes = append(s.writes, "put:"+key)
